@@ -26,7 +26,7 @@ import (
 func init() {
 	Register(&Spec{
 		ID: "C18", Level: "exploration",
-		Rule: "cases = chains with many requesters issuing random requests (intervals 0..k, several due at one height, one requester in different blocks) and oracle-seeded requests whose service call succeeds / is answered with an error / times out / cannot start; per block the raw result keys (write-once), the pending queue and the oracle-request records are compared with a due-height model; every stored value is checked for format ^0\\.\\d{20}$ and against the module PRNG applied to the previous app hash, block time, requester and seed observed at fulfilment; plus direct calls of the PRNG over generated inputs (range, format, dependence only on its inputs); non-trivial = a request whose fulfilment (or non-fulfilment) relation was evaluated; distinct = distinct (kind, interval, coincidence class, outcome); since round 13: every fourth chain exported with an oracle-seeded request pending and restarted from that export",
+		Rule: "cases = chains with many requesters issuing random requests (intervals 0..k, several due at one height, one requester in different blocks) and oracle-seeded requests whose service call succeeds / is answered with an error / times out / cannot start; per block the raw result keys (write-once), the pending queue and the oracle-request records are compared with a due-height model; every stored value is checked for format ^0\\.\\d{20}$ and against the module PRNG applied to the previous app hash, block time, requester and seed observed at fulfilment; plus direct calls of the PRNG over generated inputs (range, format, dependence only on its inputs); non-trivial = a request whose fulfilment (or non-fulfilment) relation was evaluated; distinct = distinct (kind, interval, coincidence class, outcome); since round 13: every fourth chain exported with an oracle-seeded request pending and restarted from that export; since rounds 15-19: services whose names begin with the random service's name with providers of their own; providers promising the maximum timeout, owned by another account, re-pricing while requests wait; the seed request is addressed to a provider bound to the random service, with a timeout covering its promise, and is sent in the block its context starts if that provider is eligible",
 		Assume: []string{"scope rule of the statement: at most one request per requester per block (the id scheme identifies a request by requester and height)", "previous app hash is the app hash returned by the preceding FinalizeBlock"},
 		Cases:  func(t string) int { return tierN(t, 16, 48) },
 		Run:    runRandom,
